@@ -5,8 +5,12 @@
 //
 // spec: one character per payload, in submission order (context blocks first, then ATVs):
 //   v  VbkBlock (regtest, valid proof of work)          x  VbkBlock with height below the fork height
+//   t  VTB (hand-built, valid)                           u  VTB, valid tx+signature, wrong VBK merkle path
 //   a  ATV accepted by the altchain header check        b  ATV rejected by the altchain header check
-// (the generator always lists v/x before a/b, as PopData does). dup=1 appends a copy of the first
+//   c  ATV, valid tx+signature, wrong merkle path        e  ATV, valid tx, wrong merkle root in the block of proof
+// (the generator lists v/x, then t/u, then a/b/c/e, as PopData does).  Every round checks the SAME PopData object
+// three times, then a copy of it, then a fresh deserialisation of its bytes: the `checked` flags the workers write
+// into the caller's payloads must never change a verdict. dup=1 appends a copy of the first
 // valid payload (=> duplicate ids). Each round builds the PopData on the heap, calls checkPopData on
 // the shared PopValidator and destroys the PopData right after the call; stopmode 1 stops and
 // restarts the validator between rounds, 2 destroys and re-creates it. The user-supplied
@@ -21,6 +25,7 @@
 
 #include <atomic>
 #include <chrono>
+#include <map>
 #include <memory>
 #include <mutex>
 #include <thread>
@@ -137,7 +142,25 @@ static VbkBlock make_vbk(uint32_t idx, bool ok, uint64_t salt) {
   return b;
 }
 
-static ATV make_atv(uint32_t idx, bool ok, uint32_t uniq) {
+// merkle root (hex) of the block of proof / containing block -> payload index, to name the payload in
+// "Wrong merkle root. Expected: <hex>" messages
+static std::map<std::string, uint32_t> g_roots;
+
+static VbkBlock proof_block(uint32_t idx, const uint128& root) {
+  VbkBlock bp = make_vbk(1000 + idx, true, 99);
+  bp.setMerkleRoot(root);
+  if (!g_realhash) {
+    uint8_t h[24];
+    for (int i = 0; i < 24; i++) h[i] = (uint8_t)(mix64(idx * 31 + i) & 0xff);
+    h[0] |= 1;
+    setPrecalculatedHash(bp, uint192(Slice<const uint8_t>(h, 24)));
+  }
+  return bp;
+}
+
+// kind: 'a' valid, 'b' rejected by the header hook, 'c' wrong merkle path, 'e' wrong merkle root in block of proof
+static ATV make_atv(uint32_t idx, char kind, uint32_t uniq) {
+  bool ok = kind != 'b';
   PublicationData pub;
   pub.identifier = g_alt.getIdentifier();
   pub.header = {'T', (uint8_t)(idx >> 24), (uint8_t)(idx >> 16), (uint8_t)(idx >> 8), (uint8_t)idx, (uint8_t)(ok ? 1 : 0),
@@ -161,18 +184,66 @@ static ATV make_atv(uint32_t idx, bool ok, uint32_t uniq) {
   atv.transaction = tx;
   VbkMerkleTree tree({hash}, {});
   atv.merklePath = tree.getMerklePath(hash, VbkMerkleTree::TreeIndex::NORMAL);
-  {
-    VbkBlock bp = make_vbk(1000 + idx, true, 99);
-    bp.setMerkleRoot(tree.getMerkleRoot().trim<VBK_MERKLE_ROOT_HASH_SIZE>());
-    if (!g_realhash) {
-      uint8_t h[24];
-      for (int i = 0; i < 24; i++) h[i] = (uint8_t)(mix64(idx * 31 + i) & 0xff);
-      h[0] |= 1;
-      setPrecalculatedHash(bp, uint192(Slice<const uint8_t>(h, 24)));
-    }
-    atv.blockOfProof = bp;
+  auto root = tree.getMerkleRoot().trim<VBK_MERKLE_ROOT_HASH_SIZE>();
+  if (kind == 'c') {
+    // honest transaction and signature, but the path does not lead to the root of the block of proof
+    if (atv.merklePath.layers.empty()) atv.merklePath.layers.emplace_back();
+    auto l = atv.merklePath.layers[0].asVector();
+    l[5] ^= 0x40;
+    atv.merklePath.layers[0] = uint256(l);
   }
+  if (kind == 'e') {
+    auto v = root.asVector();
+    v[3] ^= 0x11;
+    root = uint128(v);
+  }
+  atv.blockOfProof = proof_block(idx, root);
+  g_roots[root.toHex()] = idx;
   return atv;
+}
+
+// hand-built VTB: a VBK pop transaction whose Bitcoin transaction carries the 80 publication bytes, proven by a
+// one-transaction Bitcoin block (no context blocks), signed with the MockMiner key, in a one-transaction VBK block
+static VTB make_vtb(uint32_t idx, char kind, uint32_t uniq) {
+  VbkPopTx tx;
+  tx.networkOrType.networkType = g_vbk.getTransactionMagicByte();
+  tx.networkOrType.typeId = (uint8_t)TxType::VBK_POP_TX;
+  tx.address = Address::fromPublicKey(defaultPublicKeyVbk);
+  tx.publishedBlock = make_vbk(2000 + idx, true, 1234 + uniq);
+  tx.publicKey = defaultPublicKeyVbk;
+  {
+    WriteStream w;
+    tx.publishedBlock.toRaw(w);
+    tx.address.getPopBytes(w);
+    tx.bitcoinTransaction = BtcTx(w.data());
+  }
+  auto btchash = tx.bitcoinTransaction.getHash();
+  tx.merklePath.index = 0;
+  tx.merklePath.subject = btchash;
+  BtcBlock bp;
+  bp.setVersion(1);
+  bp.setTimestamp(1600000000u + idx);
+  bp.setDifficulty(0x207fffff);
+  bp.setNonce(idx);
+  bp.setMerkleRoot(tx.merklePath.calculateMerkleRoot().reverse());
+  tx.blockOfProof = bp;
+  auto hash = tx.getHash();
+  tx.signature = secp256k1::sign(hash, secp256k1::privateKeyFromVbk(defaultPrivateKeyVbk));
+
+  VTB vtb;
+  vtb.transaction = tx;
+  VbkMerkleTree tree({}, {hash});
+  vtb.merklePath = tree.getMerklePath(hash, VbkMerkleTree::TreeIndex::POP);
+  auto root = tree.getMerkleRoot().trim<VBK_MERKLE_ROOT_HASH_SIZE>();
+  if (kind == 'u') {
+    if (vtb.merklePath.layers.empty()) vtb.merklePath.layers.emplace_back();
+    auto l = vtb.merklePath.layers[0].asVector();
+    l[7] ^= 0x20;
+    vtb.merklePath.layers[0] = uint256(l);
+  }
+  vtb.containingBlock = proof_block(3000 + idx, root);
+  g_roots[root.toHex()] = idx;
+  return vtb;
 }
 
 // canonical verdict from the ValidationState of the implementation
@@ -187,24 +258,53 @@ static std::string verdict_of(bool ok, const ValidationState& st) {
     auto q = m.find("got height=-");
     if (q != std::string::npos) return "invalid:" + std::to_string(std::atoi(m.c_str() + q + 12) - 1);
   }
-  return "other:" + path;
+  if (path.find("invalid-merklepath") != std::string::npos && path.find("vbk-check-pop-tx") == std::string::npos) {
+    std::string m = st.GetDebugMessage();
+    auto q = m.find("Expected: ");
+    if (q != std::string::npos) {
+      auto it = g_roots.find(m.substr(q + 10, 32));
+      if (it != g_roots.end()) return "invalid:" + std::to_string(it->second);
+    }
+  }
+  return "other:" + path + "|" + st.GetDebugMessage();
 }
 
+static bool is_ctx(char c) { return c == 'v' || c == 'x'; }
+static bool is_vtb(char c) { return c == 't' || c == 'u'; }
 static std::unique_ptr<PopData> build(const std::string& spec, bool dup, uint32_t round, uint64_t salt) {
   std::unique_ptr<PopData> pd(new PopData());
   for (uint32_t i = 0; i < spec.size(); i++) {
     char c = spec[i];
-    if (c == 'v' || c == 'x') pd->context.push_back(make_vbk_h(i, c == 'v', salt + round));
-    else pd->atvs.push_back(make_atv(i, c == 'a', round));
+    if (is_ctx(c)) pd->context.push_back(make_vbk_h(i, c == 'v', salt + round));
+    else if (is_vtb(c)) pd->vtbs.push_back(make_vtb(i, c, round));
+    else pd->atvs.push_back(make_atv(i, c, round));
   }
   if (dup) {
     // copy of the first valid payload, appended to its own vector
     for (uint32_t i = 0; i < spec.size(); i++) {
       if (spec[i] == 'v') { pd->context.push_back(make_vbk_h(i, true, salt + round)); break; }
-      if (spec[i] == 'a') { pd->atvs.push_back(make_atv(i, true, round)); break; }
+      if (spec[i] == 't') { pd->vtbs.push_back(make_vtb(i, 't', round)); break; }
+      if (spec[i] == 'a') { pd->atvs.push_back(make_atv(i, 'a', round)); break; }
     }
   }
   return pd;
+}
+
+// a fresh object from the bytes of pd (all `checked` flags false); the precalculated hashes are supplied again
+static std::unique_ptr<PopData> reserialise(const PopData& pd) {
+  WriteStream w;
+  pd.toVbkEncoding(w);
+  std::unique_ptr<PopData> out(new PopData());
+  ReadStream rs(w.data());
+  ValidationState st;
+  if (!DeserializeFromVbkEncoding(rs, *out, st)) return nullptr;
+  if (out->context.size() != pd.context.size() || out->vtbs.size() != pd.vtbs.size() || out->atvs.size() != pd.atvs.size()) return nullptr;
+  if (!g_realhash) {
+    for (size_t i = 0; i < pd.context.size(); i++) setPrecalculatedHash(out->context[i], pd.context[i].getHash());
+    for (size_t i = 0; i < pd.vtbs.size(); i++) setPrecalculatedHash(out->vtbs[i].containingBlock, pd.vtbs[i].containingBlock.getHash());
+    for (size_t i = 0; i < pd.atvs.size(); i++) setPrecalculatedHash(out->atvs[i].blockOfProof, pd.atvs[i].blockOfProof.getHash());
+  }
+  return out;
 }
 
 // one payload after another on this thread, on a fresh copy
@@ -217,6 +317,10 @@ static std::string sequential(const std::string& spec, bool dup, uint32_t round,
   for (auto& b : pd->context) {
     ValidationState s;
     if (!checkBlock(b, s, g_vbk)) { res = verdict_of(false, s); bad = true; break; }
+  }
+  if (!bad) for (auto& t : pd->vtbs) {
+    ValidationState s;
+    if (!checkVTB(t, s, g_btc, g_vbk)) { res = verdict_of(false, s); bad = true; break; }
   }
   if (!bad) for (auto& a : pd->atvs) {
     ValidationState s;
@@ -272,23 +376,56 @@ int main() {
       }
       g_maxdelay.store(maxdelay);
       auto pd = build(spec, dup, r, seed);
-      size_t n = pd->context.size() + pd->atvs.size();
+      size_t n = pd->context.size() + pd->vtbs.size() + pd->atvs.size();
       ValidationState st;
       bool ok = checkPopData(*val, *pd, st);
+      std::string trace_events;
+      {
+        std::lock_guard<std::mutex> g(g_evmu);
+        for (size_t i = 0; i < g_events.size(); i++)
+          trace_events += (i ? "," : "") + std::to_string(g_events[i].worker) + ":" + std::to_string(g_events[i].payload);
+      }
+      std::string first = verdict_of(ok, st);
       // the caller is free to destroy / reuse its PopData as soon as the call returns
       pd.reset();
       // give a worker that (wrongly) still holds a reference the time to use it
       if (!ok) std::this_thread::sleep_for(std::chrono::microseconds(200 + 4 * (uint64_t)maxdelay));
       g_maxdelay.store(0);
+      // The workers write `checked` flags (and hashes) into the caller's payloads. A second PopData with the same
+      // content is checked three times as the SAME object, then a copy of it, then its bytes deserialised afresh:
+      // every verdict must be the one above.
+      {
+        auto pd2 = build(spec, dup, r, seed);
+        auto fresh = reserialise(*pd2);
+        if (!fresh) vh::oracle_fail(id, "round " + std::to_string(r) + ": PopData does not survive serialisation");
+        for (int again = 1; again <= 3; again++) {
+          ValidationState s2;
+          bool ok2 = checkPopData(*val, *pd2, s2);
+          std::string v2 = verdict_of(ok2, s2);
+          if (v2 != first) vh::oracle_fail(id, "round " + std::to_string(r) + ": check #" + std::to_string(again) + " of the same PopData object gives " + v2 + ", expected " + first);
+        }
+        std::unique_ptr<PopData> copy(new PopData(*pd2));
+        pd2.reset();
+        {
+          ValidationState s3;
+          bool ok3 = checkPopData(*val, *copy, s3);
+          copy.reset();
+          std::string v3 = verdict_of(ok3, s3);
+          if (v3 != first) vh::oracle_fail(id, "round " + std::to_string(r) + ": a copy of the already checked PopData gives " + v3 + ", expected " + first);
+        }
+        if (fresh) {
+          ValidationState s4;
+          bool ok4 = checkPopData(*val, *fresh, s4);
+          fresh.reset();
+          std::string v4 = verdict_of(ok4, s4);
+          if (v4 != first) vh::oracle_fail(id, "round " + std::to_string(r) + ": the same bytes deserialised afresh give " + v4 + ", expected " + first);
+        }
+      }
+      g_maxdelay.store(0);
       std::string got = verdict_of(ok, st);
       if (got != expect) vh::oracle_fail(id, "round " + std::to_string(r) + " parallel=" + got + " sequential=" + expect);
       out += (r ? ";" : "") + got;
-      {
-        std::lock_guard<std::mutex> g(g_evmu);
-        trace += (r ? ";" : "") + std::to_string(workers) + "/" + std::to_string(n) + "/";
-        for (size_t i = 0; i < g_events.size(); i++)
-          trace += (i ? "," : "") + std::to_string(g_events[i].worker) + ":" + std::to_string(g_events[i].payload);
-      }
+      trace += (r ? ";" : "") + std::to_string(workers) + "/" + std::to_string(n) + "/" + trace_events;
       if (stopmode == 3 && r + 1 < rounds) {
         if (r % 7 == 6) { val->stop(); val->start(workers); }
       } else if (stopmode == 1 && r + 1 < rounds) {
